@@ -63,6 +63,13 @@ func xmlText(l *core.Lane, n int) string {
 	if b[n-1] == ' ' {
 		b[n-1] = 'x'
 	}
+	if x := XDateExtra; x != nil && x.Chance(1, 12) {
+		// '>' is legal unescaped in character data and in attribute values: a value may begin with it
+		b[0] = '>'
+		if n > 2 && x.Bool() {
+			b[0], b[1] = '/', '>'
+		}
+	}
 	return string(b)
 }
 
